@@ -265,7 +265,7 @@ PROPS['C20'] = dict(
     technique='Verus lemmas over the work-partition arithmetic sliced from the real multi-threaded functions (chunk_size, start, work-item index, extent of the slice handed to chunks_mut)',
     level_text='Unbounded proof for all item and thread counts >= 1: the number of chunks never exceeds the thread count (the zip drops no chunk), each work item is produced by exactly one (thread, position) pair, every index handed to get_circuit/get_bit_lwe is in range.',
     level_note='Only the partition arithmetic: scheduling, data races and the Sync/Send impls are not decided (Kani has no threads); the slice drops everything but the named statements.',
-    units=[V('hal_scratch_split'), V('partition', lemmas=['lemma_chunks_le_threads', 'lemma_exact_cover', 'c20_execute_chunk_size', 'c20_execute_item', 'c20_execute_chunked_len', 'c20_prepare_item', 'c20_prepare_chunked_len', 'c20_no_item_skipped_or_repeated'])],
+    units=[V('hal_scratch_split'), V('partition', lemmas=['lemma_chunks_le_threads', 'lemma_exact_cover', 'c20_execute_chunk_size', 'c20_execute_chunked_len', 'c20_prepare_item', 'c20_prepare_chunked_len', 'c20_no_item_skipped_or_repeated'])],
     trusted_base=VERUS_TRUST + ['std::slice::chunks_mut / Iterator::zip / thread::scope semantics; usize::div_ceil assumed specification'],
     assumptions=['threads >= 1 and items >= 1 (threads = 0 divides by zero, items = 0 makes chunks_mut(0) panic in the real code)'],
     remainder='interleavings, bit-identical results across thread counts, Module Sync/Send',
